@@ -136,16 +136,71 @@ WACTS = [[0, 0, 1], [0, 0, 0], [0, 1, 1], [1, 0, "a", 1, 200], [1, 1, "a", 2, 40
          [3, "a"], [4, "a"], [5, 0], [5, 1]]
 
 
+# ---- the runner's call order (c16.runner): peer schedules for runTestCasesForServer ----
+def runner_sched(n, places, shuffle=None):
+    """places[i] = (slot of the completions of case i (a list, possibly empty), slot of its response, response first?).
+    Slot k < n = while sendRequest of case k runs, slot n = after the last sendRequest returned.  The fetch goroutine's
+    Clear (2 i) is put right after the event that lets its Await return (python mini-model of who is parked);
+    a case that is never completed gets its TraceTimeout (3 i) at the very end (a real 5 s wait: thorough tier)."""
+    slots = [[] for _ in range(n + 1)]
+    for i, (cslots, rslot, rfirst) in enumerate(places):
+        if rfirst:
+            slots[rslot].append([1, i])
+        for j, c in enumerate(cslots):
+            slots[c].append([0, i, 10 * i + j + 1])
+        if not rfirst:
+            slots[rslot].append([1, i])
+    if shuffle is not None:
+        for evs in slots:
+            # keep the order of one case's events, interleave the cases at random
+            per = {}
+            for e in evs:
+                per.setdefault(e[1], []).append(e)
+            order = [e[1] for e in evs]
+            shuffle.shuffle(order)
+            evs[:] = [per[i].pop(0) for i in order]
+    completed, responded, cleared = [False] * n, [False] * n, [False] * n
+    out = []
+    for evs in slots:
+        cur = []
+        for e in evs:
+            cur.append(e)
+            i = e[1]
+            if e[0] == 0:
+                completed[i] = True
+            else:
+                responded[i] = True
+            if completed[i] and responded[i] and not cleared[i]:
+                cleared[i] = True
+                cur.append([2, i])
+        out.append(cur)
+    for i in range(n):
+        if not cleared[i]:
+            out[n] += [[3, i], [2, i]]
+    return out
+
+
+def runner_places(n, i):
+    """every placement of ONE completion and the response of case i (slots i..n), both orders inside one slot"""
+    for c in range(i, n + 1):
+        for r in range(i, n + 1):
+            yield ([c], r, False) if c <= r else ([c], r, True)
+            if c == r:
+                yield ([c], r, True)
+
+
 class C16(Prop):
     id = "C16"
     props = "C16_Props"
-    coq_files = ("Base", "C16_Model", "C16_Spec", "C16_Proofs", "C16_Conc", "C16_ConcProofs", "C16_Mw", "C16_MwProofs", "C16_Props")
-    models = ("C16_Mw",)   # re-exports C16_Conc (which re-exports C16_Model); its c16_table holds all nine kinds
+    coq_files = ("Base", "C16_Model", "C16_Spec", "C16_Proofs", "C16_Conc", "C16_ConcProofs", "C16_Mw", "C16_MwProofs", "C16_Run",
+                 "C16_RunProofs", "C16_Props")
+    models = ("C16_Run",)   # re-exports C16_Mw -> C16_Conc -> C16_Model; its c16_table holds all twelve kinds
     packages = {"tr": "internal/tracer", "cc": "internal/app/connectconformance", "rc": "internal/app/referenceclient"}
     # c16.ballowed / c16.tallowed are not generated: their cases are WRITTEN by the free-running Go test
     # (configuration + what was observed) and judged by the model; they are kinds so that a replay file works.
     kinds = {"c16.tracer": "tr", "c16.builder": "tr", "c16.bfine": "tr", "c16.ballowed": "tr", "c16.tallowed": "tr",
-             "c16.mw": "tr", "c16.fetch": "cc", "c16.wire": "rc", "c16.wiremw": "rc"}
+             "c16.mw": "tr", "c16.fetch": "cc", "c16.wire": "rc", "c16.wiremw": "rc",
+             "c16.runner": "cc", "c16.mwk": "tr", "c16.mwlive": "tr"}
     rule = ("c16.tracer: EVERY sequence of Init/Complete/AwaitBegin/Clear/CtxDone of length <= 5 over 2 names and <= 4 over 3 names "
             "(thorough: <= 6 and <= 5) with 2 waiters, up to renaming, on a real Tracer with waiters parked in the real Await on real "
             "contexts, plus random sequences of length 6-14; c16.builder: EVERY sequence of add/build of length <= 5 (thorough 6) over "
@@ -172,9 +227,23 @@ class C16(Prop):
             "+ 2500 random + one script in which the 5 s TraceTimeout really passes; compared: r.traces per name (nothing / trace id / "
             "nil), Tracer view, waiting goroutines, HTTP traces printed by report(); c16.wire = scripts of withWireCapture contexts, "
             "wireTracer.Complete, setWireTrace, Tracer Init/Clear, examineWireDetails, every script <= 4 over 11 actions + 2000 random "
-            "(a second hand-over = crash on both sides); c16.wiremw = a client exchange through the real newWireCaptureTransport")
+            "(a second hand-over = crash on both sides); c16.wiremw = a client exchange through the real newWireCaptureTransport. "
+            "Glue: c16.runner = the REAL runTestCasesForServer with a real Tracer, real testResults and a scripted client runner whose "
+            "sendRequest, per a peer schedule, completes traces and delivers the (failing) responses WHILE sendRequest of test case k "
+            "runs or after the last one returned (1-3 test cases; every placement of completion and response for 1 and 2 test cases, "
+            "150 random schedules for 2-3 test cases with duplicate completions, every run: each case completed-then-answered and "
+            "answered-then-completed inside its own sendRequest); compared: the trace number the report holds per test name, the "
+            "Tracer's view of every name afterwards (no slot left); a fetch goroutine left waiting is reported at once (no 5 s "
+            "waits on the unchanged tree; the never-completed shape with a real TraceTimeout is thorough-only). c16.mwk = a client "
+            "exchange through the real TracingRoundTripper whose transport answers with an empty body value or http.NoBody (every "
+            "consumer script <= 4 (thorough 6) + 1500 random over all three kinds); c16.mwlive = live loopback HTTP/1.1 exchanges "
+            "(net/http transport, httptest server) answered with Content-Length: 0 / 204 / 304 / to a HEAD request / with three "
+            "bytes: number of Collector.Complete calls (bounded 1.5 s wait, then 0), Err, clean ResponseBodyEnd last")
     trusted_base = ("Coq 8.16.1 kernel (vm_compute used, native_compute not)", "extraction (ExtrOcamlBasic only) + ocaml/driver.ml",
                     "vlib generators/comparator, Go overlay harness (harness/C16)",
+                    "c16.runner: the test package's own newFakeProcess / discardPrinter fakes for the server process; "
+                    "c16.mwlive: net/http's HTTP/1.1 transport and httptest server (that they hand out http.NoBody for "
+                    "Content-Length: 0 / 204 / 304 / HEAD)",
                     "modelled not verified: Go mutex / channel close / select semantics (one action per lock region; a closed "
                     "done channel wakes every goroutine selecting on it), context cancellation",
                     "free-running runs: the Go race detector (cgo build), the runtime's goroutine dump used to see that a waiter is "
@@ -203,8 +272,15 @@ class C16(Prop):
                   "written afterwards (delivered_with_trailers). Consumers, over all histories: fetchTrace stores only what a successful "
                   "Await returned, a failed fetch changes nothing stored, the first stored trace is kept until the name is initialised "
                   "again; the wire wrapper keeps the first trace, a second hand-over crashes, one traced operation never hands over "
-                  "twice, the Tracer behind it sees exactly the forwarded completions. The model is tied to tracer.go / builder.go / "
-                  "middleware.go / results.go / wire_details.go by exhaustive small-scope differential runs driving the real functions "
+                  "twice, the Tracer behind it sees exactly the forwarded completions. Glue: the runner's call order "
+                  "(runTestCasesForServer: tracer.Init BEFORE client.sendRequest) is a function from a peer schedule to a Tracer "
+                  "history; for every batch of distinct test names and every schedule in which the peers act at any point after "
+                  "sendRequest of their test case started (also before it returns), the fetch goroutine obtains the first trace "
+                  "completed for its name and no slot is left (runner_trace_available, runner_leaves_no_slot, from first_trace / "
+                  "slot_view); TracingRoundTripper completes exactly once for EVERY kind of response body value - bytes, empty, "
+                  "http.NoBody - once the caller closed or read to the end (roundtrip_completes_once_any_body). "
+                  "The model is tied to tracer.go / builder.go / "
+                  "middleware.go / results.go / wire_details.go / server_runner.go by exhaustive small-scope differential runs driving the real functions "
                   "and by free-running goroutines whose observed outcomes must be the outcome of some interleaving (oracles proved "
                   "exact), on every check.")
     level_note = ("Trusted: Coq kernel, extraction, OCaml driver, harness. Model-code correspondence is sampled (exhaustive to "
@@ -216,18 +292,27 @@ class C16(Prop):
                   "handler still runs delivers the trace at once and the handler's epilogue still writes Response.Trailer of the "
                   "delivered trace (modelled and observed identically; excluded from delivered_with_trailers by hypothesis, example "
                   "ex_cancel_then_trailers). fetchTrace's 5 s timeout path runs once per quick check; examineWireDetails' 1 s grace "
-                  "wait for a trace that is not there is answered by the harness itself unless VERIF_C16_SLOW is set.")
+                  "wait for a trace that is not there is answered by the harness itself unless VERIF_C16_SLOW is set. Runner "
+                  "schedules: the fetch goroutine's Clear is placed right after the event that lets its Await return and time-outs "
+                  "only where the script says so (the theorems allow the Clear anywhere later); a test case whose sendRequest fails "
+                  "or whose client never answers is outside the runner model (C10/C11). In c16.runner the events scheduled 'after "
+                  "the last sendRequest returned' are released by a deferred close inside sendRequest, i.e. they may overlap the "
+                  "runner's next statement - irrelevant on a tree that initialises before sending. The unwrapped-body script "
+                  "(client_script_w with a wrap function that skips http.NoBody) exists only for the counter-example.")
     technique = ("Coq invariant proofs over arbitrary action lists (tracer slots/waiters, builder, two-step builder refinement, "
                  "middleware scripts as functions of the exchange, consumer state machines); exhaustive small-scope differential on the "
-                 "real Tracer, builder, TracingHandler / TracingRoundTripper, testResults.fetchTrace, wireTracer; free-running goroutines "
+                 "real Tracer, builder, TracingHandler / TracingRoundTripper, testResults.fetchTrace, wireTracer, runTestCasesForServer "
+                 "(scripted peers), live loopback HTTP/1.1; free-running goroutines "
                  "judged by a proved-exact interleaving oracle; race detector")
     go_timeout = 1500
 
     def nontrivial(self, case, res):
         if case[0] == "c16.tracer":
             return "(2 " in res or "(4)" in res or "(1)" in res
-        if case[0] in ("c16.bfine", "c16.mw"):
+        if case[0] in ("c16.bfine", "c16.mw", "c16.mwk"):
             return res != "(() ())"
+        if case[0] in ("c16.runner", "c16.mwlive"):
+            return "(1 " in res
         if case[0] == "c16.fetch":
             return "(1 " in res
         if case[0] == "c16.wiremw":
@@ -245,6 +330,19 @@ class C16(Prop):
             return ("middleware call sites: the collector calls as they were AT Complete (events, error, Response.Trailer) and the same "
                     "traces after the exchange differ from the proved model (a trace delivered before its trailers were recorded, "
                     "or changed after completion, shows here)")
+        if case[0] == "c16.runner":
+            return ("runTestCasesForServer (real runner, real Tracer, real testResults, scripted peers acting while sendRequest "
+                    "runs / after it returned): what the report holds per failed test name ((0) nothing, (1 t) trace t) or the "
+                    "Tracer's view of the names afterwards ((3) no slot, (4) open slot left behind) differs from the proved model: "
+                    "the trace completed for a test name did not reach its waiter, or a slot was left behind "
+                    "(runner_trace_available / runner_leaves_no_slot)")
+        if case[0] == "c16.mwk":
+            return ("TracingRoundTripper with a response body VALUE of the given kind (1 = empty body, 2 = http.NoBody): collector "
+                    "calls differ from the proved model (roundtrip_completes_once_any_body: exactly one for every kind)")
+        if case[0] == "c16.mwlive":
+            return ("live HTTP/1.1 exchange without a response body (0 Content-Length: 0, 1 = 204, 2 = 304, 3 = HEAD; 4 = three "
+                    "bytes) through TracingRoundTripper: (Collector.Complete calls, Err, clean ResponseBodyEnd last); (0) = the "
+                    "exchange was over and its trace never completed")
         if case[0] == "c16.fetch":
             return ("results.go fetchTrace: what testResults stored per test name / the Tracer shows / the report prints differs "
                     "from the proved model (stored: (0) nothing, (1 t) trace t, (2) a nil trace)")
@@ -310,6 +408,38 @@ class C16(Prop):
             yield ["c16.mw"] + rand_server(rng)
         for _ in range(5000 if quick else 100000):
             yield ["c16.mw", rng.choice(["T/x", "T/x", "T/x", "n", ""]), 1] + rand_client_tail(rng)
+        # ---- TracingRoundTripper and the KIND of response body value (empty body / http.NoBody) ----
+        for kind in (1, 2):
+            for n in range(0, 5 if quick else 7):
+                for i, ops in enumerate(itertools.product(COPS, repeat=n)):
+                    yield ["c16.mwk", "T/x", kind, [i % 2, [1], 0], (1, 0, 2, 1)[i % 4], 0, [i % 2, [], 0], [], [list(o) for o in ops]]
+        for _ in range(1500 if quick else 40000):
+            yield ["c16.mwk", rng.choice(["T/x", "T/x", "T/x", "n", ""]), rng.choice([0, 1, 1, 2, 2, 2])] + rand_client_tail(rng)
+        # live loopback HTTP/1.1: Content-Length: 0, 204, 304, HEAD (net/http hands out http.NoBody), three bytes
+        for v in range(5):
+            yield ["c16.mwlive", "T/live", v]
+        yield ["c16.mwlive", "", 0]
+        # ---- the runner's call order: real runTestCasesForServer, peers acting while sendRequest runs ----
+        for n in (1, 2, 3):
+            # every test case completed and answered inside its own sendRequest, completion first / response first
+            yield ["c16.runner", n, runner_sched(n, [([i], i, False) for i in range(n)])]
+            yield ["c16.runner", n, runner_sched(n, [([i], i, True) for i in range(n)])]
+        for n in (1, 2):
+            for places in itertools.product(*[list(runner_places(n, i)) for i in range(n)]):
+                yield ["c16.runner", n, runner_sched(n, list(places))]
+        for _ in range(150 if quick else 3000):
+            n = rng.choice([2, 3, 3, 3])
+            places = []
+            for i in range(n):
+                cs, r, rf = rng.choice(list(runner_places(n, i)))
+                if rng.randrange(3) == 0:       # a second completion: the first one wins
+                    cs = cs + [rng.randint(cs[0], n)]
+                places.append((cs, r, rf))
+            yield ["c16.runner", n, runner_sched(n, places, shuffle=rng)]
+        if not quick:
+            # a test case whose trace never comes: the fetch goroutine gives up after TraceTimeout and clears
+            yield ["c16.runner", 2, runner_sched(2, [([], 0, True), ([1], 2, False)])]
+            yield ["c16.runner", 1, runner_sched(1, [([], 1, True)])]
         # ---- consumer: results.go fetchTrace on a real Tracer ----
         for acts in fetch_seqs(4 if quick else 5):
             full = fetch_ok(acts)
